@@ -217,12 +217,15 @@ def pool_lib():
     class Fn(P.FunctorWorker):
         """computes f_ref; optional sleep before the item with value ``slow_value``"""
 
-        def __init__(self, quota=math.inf, slow_value=None, slow_s=0.0):
+        def __init__(self, quota=math.inf, slow_value=None, slow_s=0.0, item_s=0.0):
             super().__init__(quota)
             self.slow_value = slow_value
             self.slow_s = slow_s
+            self.item_s = item_s
 
         def __call__(self, x):
+            if self.item_s:
+                time.sleep(self.item_s)
             if self.slow_value is not None and x == self.slow_value:
                 time.sleep(self.slow_s)
             return f_ref(x)
@@ -230,19 +233,26 @@ def pool_lib():
     class Fac(P.FunctorWorkerFactory):
         """factory; from the ``slow_from``-th creation on, create() sleeps ``delay`` seconds first"""
 
-        def __init__(self, quota=math.inf, delay=0.0, slow_from=None, slow_value=None, slow_s=0.0):
+        def __init__(self, quota=math.inf, delay=0.0, slow_from=None, slow_value=None, slow_s=0.0, quotas=None,
+                     item_s=0.0):
             self.quota = quota
+            self.quotas = quotas  # quota of the k-th created worker (the last entry repeats), overrides quota
             self.delay = delay
             self.slow_from = slow_from
             self.n = 0
             self.slow_value = slow_value
             self.slow_s = slow_s
+            self.item_s = item_s
 
         def create(self):
             self.n += 1
             if self.slow_from is not None and self.n >= self.slow_from:
                 time.sleep(self.delay)
-            return Fn(self.quota, self.slow_value, self.slow_s)
+            q = self.quota
+            if self.quotas:
+                q = self.quotas[min(self.n, len(self.quotas)) - 1]
+                q = math.inf if q is None else q
+            return Fn(q, self.slow_value, self.slow_s, self.item_s)
 
     def delayed_feeder(delay):
         class Slow(P.FunctorPool.SendWorkThread):
@@ -322,7 +332,8 @@ def drain_payload(q, settle=0.1):
 def make_pool(cfg):
     """
     cfg: {"pool": "functor"|"factory", "workers": w, "wq": None|int|float, "rq": None|int, "quota": None|k,
-          "slow_value": v, "slow_s": s, "factory_delay": d, "factory_slow_from": n}
+          "slow_value": v, "slow_s": s, "item_s": s (every item), "factory_delay": d, "factory_slow_from": n,
+          "quotas": [quota of the k-th created worker, last repeats], "wait_ready": bool}
     """
     import math
     L = pool_lib()
@@ -333,10 +344,11 @@ def make_pool(cfg):
     if "rq" in cfg:
         kw["results_queue_maxsize"] = cfg["rq"]
     if cfg.get("pool", "functor") == "functor":
-        ws = [L.Fn(quota, cfg.get("slow_value"), cfg.get("slow_s", 0.0)) for _ in range(cfg["workers"])]
+        ws = [L.Fn(quota, cfg.get("slow_value"), cfg.get("slow_s", 0.0), cfg.get("item_s", 0.0))
+              for _ in range(cfg["workers"])]
         return L.P.FunctorPool(ws, **kw)
     fac = L.Fac(quota, cfg.get("factory_delay", 0.0), cfg.get("factory_slow_from"), cfg.get("slow_value"),
-                cfg.get("slow_s", 0.0))
+                cfg.get("slow_s", 0.0), cfg.get("quotas"), cfg.get("item_s", 0.0))
     return L.P.FactoryFunctorPool(cfg["workers"], fac, **kw)
 
 
@@ -386,6 +398,8 @@ def pool_history_body(case, prefix, trivial_if_empty=True):
     t0 = time.time()
     timing = []
     with pool:
+        if case["cfg"].get("wait_ready"):
+            pool.until_all_ready()
         for k, call in enumerate(case["calls"]):
             if call.get("feeder_delay"):
                 pool.SendWorkThread = L.delayed_feeder(call["feeder_delay"])
